@@ -6,6 +6,7 @@ CONSTANTS
   Types = {"i8", "u8", "i16", "u16", "i32", "u32", "f32", "f64", "c8", "uc8"}
   RasDims <- RDimsNone
   ScaleSets <- ScalesNo
+  Grows = {}
   MaxObjs = 4
   MaxOps = 4
   Mix = TRUE
